@@ -235,6 +235,7 @@ type procObs struct {
 	stdout   []byte
 	stderr   string
 	timedOut bool
+	shown    []byte // everything the controlling terminal displayed (pty runs only)
 }
 
 func (e *c15Env) run(s *procSpec) *procObs {
